@@ -102,7 +102,9 @@ func cleanSuffix(val any) any {
 		for k, v := range t {
 			parts := strings.Split(k, "#")
 
-			result[parts[0]] = cleanSuffix(v)
+			// several suffixed keys can carry the same name (e.g. two variables addressing the
+			// same list): merge them instead of letting the last one iterated win
+			result[parts[0]] = merge(result[parts[0]], cleanSuffix(v))
 		}
 
 		return result
